@@ -24,7 +24,7 @@ def run(tier, seed):
     allnames = set()
     for k in range(runs):
         vp = os.path.join(wd, f"vals-{k}.ndjson")
-        V.gv(["vals", "--seed", seed * 100 + k, "--extra", extra, "--out", vp, "--dir", os.path.join(wd, "db")])
+        V.gv(["vals", "--seed", seed * 100 + k, "--extra", extra, "--out", vp, "--dir", os.path.join(wd, "db")] + (["--big"] if k == 0 else []), timeout=1800)
         d = json.loads(open(vp).readline())
         r = V.tlc(MOD, cfg, name=f"C16-{k}", workers=1, timeout=1800, xmx="8g", env={"TRACE": vp})
         if r.timeout or "No error has been found" not in r.out:
@@ -49,7 +49,7 @@ def run(tier, seed):
             "every pair and triple is evaluated (evaluations = n^3 + n_orderable^3 per run); distinct = distinct values in the universes",
             samples=samples, exhaustive=False,
             laws=["eq equivalence (hashable, orderable)", "eq => equal hash", "cmp = 0 iff eq", "cmp antisymmetric, transitive",
-                  "round trips: spill serializer, WAL (close + reopen), snapshot export/import, bit-exact", "BTreeSet / HashSet / sort class consistency"])
+                  "round trips: spill serializer, WAL (close + reopen), snapshot export/import, bit-exact", "snapshot round trip of 12-15 MB snapshots made of millions of small values", "BTreeSet / HashSet / sort class consistency"])
     rep.assumptions += ["relations are evaluated by the harness on the real wrappers and recorded; TLC checks the laws on the recorded matrices",
                         "f64 values are sampled (boundary classes + random bit patterns), not exhaustive; JSON serialisation for language bindings is out of scope (bindings are not built here)"]
     return rep.finish()
